@@ -292,6 +292,8 @@ def run(cx, rep):
     engine_decides_rule(F, rep, "C05.13")
     # ---------------------------------------------------------------- C05.14
     skipped_negative_rule(F, rep, "C05.14")
+    # ---------------------------------------------------------------- C05.15
+    ref_memo_key_rule(F, rep, "C05.15")
 
     # ---------------------------------------------------------------- C05.5
     rep.rule("C05.5", "polarity of the path walk in bdd_every_result")
@@ -1251,6 +1253,59 @@ def engine_decides_rule(F, rep, rid):
                "the handling of %s in %s returns a value (line %s) on a path that has not consulted the semantic engine (%s): a syntactic shortcut must re-implement assignability for every pair of kinds, and any kind it does not know is silently treated as `not assignable` / `not removed`" % (
                    what, f.id, ", ".join(str(h.get("line")) for h in hits[:4]), ev),
                f.loc(), sample={"operator": what, "fn": f.id, "engine_call": ev, "value_exits_without_engine": len(hits)})
+
+
+# ---------------------------------------------------------------------------------------------------- C05.15
+def ref_memo_key_rule(F, rep, rid):
+    """The converter turns a reference to a named type into an atom once and memoises `reference -> atom index` (that
+    is also how recursive types terminate).  A reference is the declaration's name TOGETHER with its type arguments;
+    a memo keyed by less - the name alone - gives `Box<string>` and `Box<number>` one atom, so the engine answers
+    `Box<string> extends Box<number>` with yes and `Exclude<Box<string> | Box<number>, Box<string>>` is never.
+    Decided on the types: every table of the engine context of type Map<K, usize> that the Ref arm of the converter
+    reads or fills has K = the payload type of RuntypeKind::Ref, and the key expressions are the matched reference
+    itself (no field projection of it)."""
+    rep.rule(rid, "the reference -> atom memo of the converter is keyed by the whole reference (name and type arguments)")
+    payload = None
+    for k, a in F.adts.items():
+        if k.endswith("::RuntypeKind") or k == "RuntypeKind":
+            for v in a["variants"]:
+                if v["name"] == "Ref" and v["fields"]:
+                    payload = v["fields"][0]["ty"]
+    if payload is None:
+        rep.anchor_missing(rid, "RuntypeKind::Ref payload type")
+        return
+    last = lambda t_: re.sub(r"(\w+::)+", "", (t_ or "").replace("&", "").strip())
+    n = 0
+    for g, t in sorted(F.hir.items()):
+        f = F.fns.get(g)
+        if f is None or "/src/subtyping/" not in (f.file or ""):
+            continue
+        # the arms (or `if let`s) that match a reference
+        regions = []
+        for x in walk(t["body"]):
+            if x["k"] == "Match":
+                for a in x["arms"]:
+                    if any(p_.get("k") == "P.TupleStruct" and (p_.get("def") or "").endswith("RuntypeKind::Ref") for p_ in walk(a["pat"])):
+                        regions.append((a["body"], [b_.get("lid") for b_ in walk(a["pat"]) if b_["k"] == "P.Binding"]))
+            if x["k"] == "If" and x["cond"].get("k") == "Let" and any(p_.get("k") == "P.TupleStruct" and (p_.get("def") or "").endswith("RuntypeKind::Ref") for p_ in walk(x["cond"]["pat"])):
+                regions.append((x["then"], [b_.get("lid") for b_ in walk(x["cond"]["pat"]) if b_["k"] == "P.Binding"]))
+        for body, binds in regions:
+            for c in walk(body):
+                if c["k"] != "MethodCall" or c.get("method") not in ("get", "insert", "contains_key", "entry", "get_mut") or c["recv"]["k"] != "Field":
+                    continue
+                m = re.match(r"std::collections::\w+Map<(.+), usize>$", c["recv"].get("ty") or "")
+                if not m:
+                    continue
+                n += 1
+                kty = m.group(1)
+                key = c["args"][0] if c.get("args") else None
+                proj = key is not None and any(z["k"] == "Field" and any(y["k"] == "Path" and y.get("lid") in binds for y in walk(z)) for z in walk(key))
+                ok = last(kty) == last(payload) and not proj
+                rep.ob(rid, "%s/%s.%s" % (f.name, c["recv"]["name"], c["method"]), ok,
+                       "%s memoises the atom of a reference in `%s` keyed by %s%s, but a reference is a %s (name AND type arguments): two instantiations of one generic declaration share an atom - `Box<string> extends Box<number>` is decided yes" % (
+                           g, c["recv"]["name"], kty, " (a field of the matched reference)" if proj else "", payload),
+                       "%s:%s" % (f.file, c["line"]), sample={"fn": f.name, "table": c["recv"]["name"], "key_type": kty, "reference_type": payload})
+    rep.floor(rid, "reads / fills of reference memos in the Ref arm of the converter", n, 4)
 
 
 # ---------------------------------------------------------------------------------------------------- C05.14
